@@ -33,11 +33,20 @@ static void on_vtalrm(int) {
     ssize_t r = write(1, b, (size_t)n); (void)r;
     _exit(78);
 }
+// The wall-clock backstop is for a harness deadlock (all threads parked burn no CPU) or a starved process: it says nothing
+// about the library, so it ends the process with its own exit code (harness error), never as a "hang" verdict.
+static void on_alrm(int) {
+    char b[64]; int n = snprintf(b, sizeof b, "\nSTARVED %ld\n", g_cur_index);
+    ssize_t r = write(1, b, (size_t)n); (void)r;
+    _exit(79);
+}
 static void arm_watchdog(int cpu_seconds) {
+    static int scale = 0;
+    if (!scale) { const char *e = getenv("QSIM_WATCHDOG_SCALE"); scale = e ? std::max(1, atoi(e)) : 1; }    // e.g. under valgrind
+    cpu_seconds *= scale;
     struct sigaction sa; memset(&sa, 0, sizeof sa); sa.sa_handler = on_vtalrm; sigaction(SIGVTALRM, &sa, nullptr);
     struct itimerval it; memset(&it, 0, sizeof it); it.it_value.tv_sec = cpu_seconds; setitimer(ITIMER_VIRTUAL, &it, nullptr);
-    // wall-clock backstop for a harness deadlock (all threads parked burn no CPU); generous so machine load cannot trip it
-    sigaction(SIGALRM, &sa, nullptr);
+    struct sigaction sb; memset(&sb, 0, sizeof sb); sb.sa_handler = on_alrm; sigaction(SIGALRM, &sb, nullptr);
     it.it_value.tv_sec = cpu_seconds * 20 + 60; setitimer(ITIMER_REAL, &it, nullptr);
 }
 static void disarm_watchdog() { struct itimerval it; memset(&it, 0, sizeof it); setitimer(ITIMER_VIRTUAL, &it, nullptr); setitimer(ITIMER_REAL, &it, nullptr); }
@@ -138,6 +147,7 @@ static Verdict run_isolated(const Plan &p, const std::string &scratch, bool verb
         if (const J *s = j.get("sched")) for (auto &d : s->a) v.sched.push_back((int)d.n);
         return v;
     }
+    if (WIFEXITED(st) && WEXITSTATUS(st) == 79) { v.harness_error = true; v.cls = "starved"; v.detail = "wall-clock backstop: the process made no progress (harness deadlock or starved machine)"; v.trace = "died"; return v; }
     // the run died: that is a verdict about the SUT call in progress
     v.failed = true; v.oracle = "crash";
     if (WIFEXITED(st) && WEXITSTATUS(st) == 77) { v.cls = "sanitizer:" + classify_sanitizer(errfile); v.detail = "sanitizer report, see replay with --verbose"; }
